@@ -197,24 +197,69 @@ func hostNoPort(h string) string {
 
 type xfpVariant struct {
 	Name  string
-	Lines []string
-	Class string // https | plain | ambiguous
+	Lines []string    // X-Forwarded-Proto header lines, in order
+	Extra [][2]string // other "I was https" hints the statement gives no standing to
+	Class string      // https | plain | ambiguous (computed by xfpClass)
 }
 
-var xfpHTTPS = xfpVariant{"https", []string{"https"}, "https"}
-
-var xfpOthers = []xfpVariant{
-	{"absent", nil, "plain"},
-	{"http", []string{"http"}, "plain"},
-	{"empty", []string{""}, "plain"},
-	{"upper", []string{"HTTPS"}, "ambiguous"},
-	{"list-https-first", []string{"https, http"}, "ambiguous"},
-	{"list-http-first", []string{"http, https"}, "ambiguous"},
-	{"two-lines-https-first", []string{"https", "http"}, "ambiguous"},
-	{"two-lines-http-first", []string{"http", "https"}, "ambiguous"},
-	{"padded", []string{"  https "}, "https"},
-	{"wss", []string{"wss"}, "ambiguous"},
+// xfpClass reads X-Forwarded-Proto the conventional way: the first entry of the first line is the
+// hop closest to the client. A request whose first entry is not https (absent, empty, http,
+// "http, https", http then https on two lines, ws, garbage) reached the first proxy in plain HTTP
+// and must be upgraded. Unsettled (don't-care) are only other spellings of a leading https
+// ("HTTPS", padded), lists that start with https, and wss. Exactly one line "https" is https.
+func xfpClass(lines []string) string {
+	if len(lines) == 0 {
+		return "plain"
+	}
+	first := lines[0]
+	if i := strings.IndexByte(first, ','); i >= 0 {
+		first = first[:i]
+	}
+	switch strings.ToLower(strings.Trim(first, " \t")) {
+	case "https":
+		if len(lines) == 1 && lines[0] == "https" {
+			return "https"
+		}
+		return "ambiguous"
+	case "wss":
+		return "ambiguous"
+	}
+	return "plain"
 }
+
+var xfpHTTPS = xfpVariant{Name: "https", Lines: []string{"https"}, Class: "https"}
+
+var xfpOthers = func() []xfpVariant {
+	vs := []xfpVariant{
+		{Name: "absent"},
+		{Name: "http", Lines: []string{"http"}},
+		{Name: "empty", Lines: []string{""}},
+		{Name: "list-http-first", Lines: []string{"http, https"}},
+		{Name: "list-http-first-nospace", Lines: []string{"http,https"}},
+		{Name: "list-http-first-upper", Lines: []string{"http, HTTPS"}},
+		{Name: "list-empty-first", Lines: []string{", https"}},
+		{Name: "two-lines-http-first", Lines: []string{"http", "https"}},
+		{Name: "two-lines-http-list-then-https", Lines: []string{"http, http", "https"}},
+		{Name: "ws", Lines: []string{"ws"}},
+		{Name: "garbage", Lines: []string{"yes"}},
+		{Name: "httpsx", Lines: []string{"httpsx"}},
+		{Name: "absent+forwarded-proto-https", Extra: [][2]string{{"Forwarded", "for=192.0.2.1;proto=https"}}},
+		{Name: "http+forwarded-proto-https", Lines: []string{"http"}, Extra: [][2]string{{"Forwarded", "proto=https"}}},
+		{Name: "absent+x-forwarded-ssl-on", Extra: [][2]string{{"X-Forwarded-Ssl", "on"}}},
+		{Name: "http+x-forwarded-ssl-on", Lines: []string{"http"}, Extra: [][2]string{{"X-Forwarded-Ssl", "on"}}},
+		{Name: "absent+x-forwarded-scheme-https", Extra: [][2]string{{"X-Forwarded-Scheme", "https"}, {"Front-End-Https", "on"}}},
+		{Name: "upper", Lines: []string{"HTTPS"}},
+		{Name: "mixed-case", Lines: []string{"Https"}},
+		{Name: "list-https-first", Lines: []string{"https, http"}},
+		{Name: "two-lines-https-first", Lines: []string{"https", "http"}},
+		{Name: "padded", Lines: []string{"  https "}},
+		{Name: "wss", Lines: []string{"wss"}},
+	}
+	for i := range vs {
+		vs[i].Class = xfpClass(vs[i].Lines)
+	}
+	return vs
+}()
 
 // ---------------------------------------------------------------------------------------------
 // scenarios
@@ -326,6 +371,7 @@ func (rn *runner) request(idx int, st *stackCfg, up *upCfg, scen, step string, r
 	for _, l := range xfp.Lines {
 		rq.Headers = append(rq.Headers, [2]string{"X-Forwarded-Proto", l})
 	}
+	rq.Headers = append(rq.Headers, xfp.Extra...)
 	if a != nil {
 		rq.Headers = append(rq.Headers, [2]string{advHeader, a.encode()})
 	}
@@ -555,11 +601,12 @@ func (rn *runner) judge(idx int, st *stackCfg, up *upCfg, o *obs, rq wreq, res *
 		must := o.XFPClass == "plain" && scheme != "https"
 		isUpgrade := f.Status == 301 && !o.Hit && scheme != "https" && strings.HasPrefix(strings.ToLower(f.get("Location")), "https://")
 		if must && !isUpgrade {
-			rep.Violate(rn.stream, idx, fmt.Sprintf("proxy: plain-http request not redirected to https xfp=%s answered=%s", o.XFP, o.Class),
-				fmt.Sprintf("secure cookies on, request without https marker answered %d (%s) instead of 301 to https", f.Status, o.Fine), o)
+			rep.Violate(rn.stream, idx, fmt.Sprintf("proxy: plain-http request not upgraded xfp=%s", o.XFP),
+				fmt.Sprintf("secure cookies on; the client-side hop of the request was not https (X-Forwarded-Proto variant %q), yet it was answered %d (%s) instead of 301 to https", o.XFP, f.Status, o.Fine), o)
 		}
 		if must {
 			rep.Count("plain_http_requests_secure_on", 1)
+			rep.Count("plain_http_xfp_"+o.XFP, 1)
 		}
 		if isUpgrade && (must || o.XFPClass == "ambiguous") {
 			rep.Count("https_upgrade_checked", 1)
